@@ -237,8 +237,11 @@ fn generate_family(id: &str, run_seed: u64, _thorough: bool) -> Plan {
             } else if pick < 86 {
                 // every lock path incl. the push loop and push subscriptions (lock-order rule)
                 f_general(run_seed, &GeneralOpts { stalls: false, push: true, ..full })
-            } else if pick < 92 {
+            } else if pick < 90 {
                 f_push(run_seed, false)
+            } else if pick < 93 {
+                // a lease that runs out while the subscription's mailbox is full
+                f_burst_edge(run_seed)
             } else if pick < 96 {
                 // creates racing deletes of the same names (wait-for cycles that need no full mailbox)
                 f_names(run_seed, 3, false)
@@ -270,7 +273,10 @@ fn generate_family(id: &str, run_seed: u64, _thorough: bool) -> Plan {
             }
         }
         "C09" => {
-            if pick >= 94 {
+            if pick >= 97 {
+                // many topics created in the server's lifetime: IDs unique across topics
+                f_manytopics(run_seed)
+            } else if pick >= 94 {
                 f_topicdelete(run_seed)
             } else if pick >= 86 {
                 // publishes that fail half-way (a subscription deleted under a racing create stays
@@ -310,12 +316,18 @@ fn generate_family(id: &str, run_seed: u64, _thorough: bool) -> Plan {
                 // the topic deleted under a subscription that has consumers connected, then the
                 // subscription itself: what Get / List say in between and afterwards
                 f_delete(run_seed, false).with_tag("audit_lists")
+            } else if pick < 69 {
+                // a subscription created / deleted while the topic's mailbox is full
+                f_topicburst(run_seed)
             } else {
                 f_general(run_seed, &GeneralOpts { stalls: false, ..full }).with_tag("audit_lists")
             }
         }
         "C12" => {
-            if pick < 88 {
+            if pick >= 94 {
+                // DeleteSubscription handled while the topic's mailbox is full, consumers waiting
+                f_topicburst(run_seed)
+            } else if pick < 84 {
                 f_delete(run_seed, false)
             } else {
                 f_names(run_seed, 1 + pick % 3, false)
